@@ -71,7 +71,7 @@ def apply_inputs(net, base, x):
     net.ext_grid.loc[net.ext_grid.index[0], "in_service"] = eg
 
 
-def run_series(netname, profile, cod, dt=60.0, mode="sequential", snapshots=False):
+def run_series(netname, profile, cod, dt=60.0, mode="sequential", snapshots=False, rows=None):
     """one transient run_timeseries over `profile`; returns per step the digests of the hydraulic and thermal results the net held
     when the output writer was called (and the abstract projection of the whole net if snapshots)"""
     import pandas as pd
@@ -89,7 +89,7 @@ def run_series(netname, profile, cod, dt=60.0, mode="sequential", snapshots=Fals
         ConstControl(net, "source", "mdot_kg_per_s", element_index=list(net.source.index), profile_name=list(d2.columns), data_source=DFData(d2))
     d3 = pd.DataFrame({"eg": [INPUTS[p][2] for p in profile]})
     ConstControl(net, "ext_grid", "in_service", element_index=[net.ext_grid.index[0]], profile_name=["eg"], data_source=DFData(d3))
-    steps = list(range(n))
+    steps = [r - 1 for r in rows] if rows else list(range(n))          # the rows of the data source that are run, in this order
     OutputWriter(net, steps, output_path=None, log_variables=[("res_junction", "p_bar")])
     seen = []
 
@@ -125,17 +125,20 @@ def standalone(netname, base, x):
 
 def run_case(job):
     """job: {id, net, profile, cod} -> (Trace_TS case, [Trace_PF cases of the steps])"""
-    prof, cod = job["profile"], job["cod"]
-    seen, raised, exc, base = run_series(job["net"], prof, cod, snapshots=True)
+    full, cod = job["profile"], job["cod"]
+    rows = [int(s) for s in (job.get("steps") or range(1, len(full) + 1))]
+    prof = [full[r - 1] for r in rows]                       # the inputs along the run
+    seen, raised, exc, base = run_series(job["net"], full, cod, snapshots=True, rows=rows)
     by_t = {r["t"]: r for r in seen}
-    # the same series over the profile without its last step: must reproduce the first steps (a step depends on the past only)
+    # the same series without its last step: must reproduce the first steps (a step depends on the past only)
     pre = {}
-    if len(prof) >= 2 and not raised:
-        s2, r2, _, _ = run_series(job["net"], prof[:-1], cod)
+    if len(rows) >= 2 and not raised:
+        s2, r2, _, _ = run_series(job["net"], full, cod, rows=rows[:-1])
         if not r2:
             pre = {r["t"]: r for r in s2}
     steps, pfcases = [], []
-    for t, x in enumerate(prof):
+    for pos, x in enumerate(prof):
+        t = rows[pos] - 1
         r = by_t.get(t)
         sa = standalone(job["net"], base, x)
         steps.append({"logged": r["hyd"] if r else "nan", "standalone": sa, "flagged": bool(r is not None and not r["pf_converged"]),
@@ -143,8 +146,8 @@ def run_case(job):
         if r is not None and r["pf_converged"] and x != "X":
             pfcases.append({"id": "%s.t%d" % (job["id"], t), "outcome": "returned", "oclass": "returned", "check": ["C01"], "mode": "sequential",
                             "net": r["net"], "converged": r["converged"], "ambient": netio.limbs(293.15, netio.TSCALE)})
-    ts = {"id": job["id"], "profile": prof, "cod": cod, "raised": raised, "exc": exc, "steps": steps, "net": job["net"], "mode": "transient",
-          "transient": True}
+    ts = {"id": job["id"], "profile": prof, "rows": rows, "full_profile": full, "cod": cod, "raised": raised, "exc": exc, "steps": steps, "net": job["net"],
+          "mode": "transient", "transient": True}
     return ts, pfcases
 
 
@@ -155,13 +158,14 @@ def jobs_for(tier, seed, profiles):
     rnd = random.Random(seed + 31)
     jobs = []
     for i, b in enumerate(profiles):
-        if "X" in b["profile"] and not b["cod"]:
+        eff = [b["profile"][s - 1] for s in b["steps"]] if b.get("steps") else b["profile"]
+        if "X" in eff and not b["cod"]:
             continue
         for net in NETS:
-            jobs.append({"id": "tr%d.%s" % (i, net), "net": net, "profile": b["profile"], "cod": b["cod"]})
+            jobs.append({"id": "tr%d.%s" % (i, net), "net": net, "profile": b["profile"], "steps": b.get("steps"), "cod": b["cod"]})
     cap = 40 if tier == "quick" else 2000
     if len(jobs) > cap:
-        long_ = [j for j in jobs if len(j["profile"]) >= 3]
-        short = [j for j in jobs if len(j["profile"]) < 3]
+        long_ = [j for j in jobs if len(j.get("steps") or j["profile"]) >= 3]
+        short = [j for j in jobs if len(j.get("steps") or j["profile"]) < 3]
         jobs = rnd.sample(long_, min(len(long_), cap - cap // 4)) + rnd.sample(short, min(len(short), cap // 4))
     return jobs
